@@ -289,6 +289,29 @@ pub fn judge(c: &Case, rec: &mut Rec) -> Verdict {
     } else {
         "destination-incomplete"
     };
+    // One root cause gets one signature whatever symptom comes first: with --glob, a lookup that fails while
+    // main is still expanding the patterns (before any thread is created), on anything but the
+    // destination itself, is swallowed inside the glob crate and the sources it concerns are dropped.
+    let first_clone = out.log.iter().filter(|e| e.sys == Sys::Clone).map(|e| e.t_in).min().unwrap_or(u64::MAX);
+    let f0_rel = model::rel_to_root(&root2, &f0.path.clone().unwrap_or_default()).unwrap_or_default();
+    let dest_rel = model::rel_to_root(&root2, &p2.inv.dest).unwrap_or_default();
+    let _ = f0_rel;
+    let glob_phase_fault = |e: &Ev| {
+        out.roles.get(e.th).copied() == Some(Role::Main)
+            && e.t_in < first_clone
+            && matches!(e.sys, Sys::Stat | Sys::Getdents | Sys::Open | Sys::Readlink)
+            && model::rel_to_root(&root2, &e.path.clone().unwrap_or_default()).unwrap_or_default() != dest_rel
+    };
+    // (with two faults, one of them in the expansion phase is enough: the outcome is contaminated by the
+    // known defect, so the case is counted under it and excluded)
+    if p2.inv.glob && fired.iter().any(|e| glob_phase_fault(e)) {
+        let f0 = *fired.iter().find(|e| glob_phase_fault(e)).unwrap();
+        return Verdict::faild(
+            "C04|glob-expansion|lookup-error-swallowed".to_string(),
+            format!("exit 0 although {} failed with errno {} during --glob expansion: {}", f0.short(), f0.errno(), diffs.iter().take(3).cloned().collect::<Vec<_>>().join("; ")),
+            json!({"argv": p2.inv.argv_s(), "fault": descr, "diffs": diffs.iter().take(10).collect::<Vec<_>>(), "stderr": out.stderr_s()}),
+        );
+    }
     Verdict::faild(
         format!("C04|{:?}|{}|{}|{}{}", f0.sys, target_role, lost, role_name(th_role), {
             let rel = model::rel_to_root(&root2, &f0.path.clone().unwrap_or_default()).unwrap_or_default();
